@@ -7,7 +7,7 @@
    of its holders: exactly the decision function F of Policer.tla (module extended here, so the C27 model and
    the C26 model cannot drift apart), evaluated with the answers the other nodes would give right now:
    "has" for a holder, 404 + successful replication for a reachable non-holder, unreachable for a node in
-   `down`. The result moves replicas: holders' = (holders + nodes that stored) - (the node itself if it
+   `down`, 404 + refused replication for a node in `refuse`. The result moves replicas: holders' = (holders + nodes that stored) - (the node itself if it
    removed its copy).  Replication inside a check is synchronous in the code (HandleTask runs in the calling
    goroutine), so a check is one step; checks of different nodes interleave arbitrarily.
 
@@ -32,35 +32,37 @@ VARIABLES list, rep,        \* the rule (constant during a behaviour)
           last              \* observation of the last check: [node, down, del, tasks, stored]
 cvars == <<list, rep, holders, ran, round, last>>
 
-Scn(n, hs, down) ==
+Scn(n, hs, down, refuse) ==
   [typ |-> "REG", rep |-> <<[nodes |-> [ix \in 1..Len(list) |-> Swap(n, list[ix])], n |-> rep]>>, ec |-> <<>>,
    attr |-> "none", part |-> [rule |-> 0, idx |-> 0], neterr |-> "none", inNetmap |-> "y", shards |-> 1,
    nm |-> [x \in Nodes |-> "n"],
-   ans |-> [x \in Nodes |-> IF Swap(n, x) \in down THEN "err" ELSE IF Swap(n, x) \in hs THEN "has" ELSE "nfOk"]]
+   ans |-> [x \in Nodes |-> IF Swap(n, x) \in down THEN "err" ELSE IF Swap(n, x) \in hs THEN "has"
+                            ELSE IF Swap(n, x) \in refuse THEN "nfFail" ELSE "nfOk"]]
 
 MapSeq(n, q) == [ix \in 1..Len(q) |-> Swap(n, q[ix])]
 \* decision of node n, node names translated back
-Decide27(n, hs, down) ==
-  LET f == F(Scn(n, hs, down), FALSE) IN
+Decide27(n, hs, down, refuse) ==
+  LET f == F(Scn(n, hs, down, refuse), FALSE) IN
   [node |-> n, down |-> down, del |-> f.del,
    tasks |-> [k \in 1..Len(f.tasks) |-> [q |-> f.tasks[k].q, nodes |-> MapSeq(n, f.tasks[k].nodes), ok |-> MapSeq(n, f.tasks[k].ok)]],
    stored |-> {Swap(n, x) : x \in f.stored}]
 After(hs, d) == (hs \cup d.stored) \ (IF d.del # "none" THEN {d.node} ELSE {})
 
-\* one policy check by holder n while the nodes in down are unreachable
-Check(n, down) ==
+\* one policy check by holder n while the nodes in down are unreachable and the nodes in refuse answer HEAD but
+\* do not accept replicas
+Check(n, down, refuse) ==
   /\ n \in holders /\ n \notin down
-  /\ LET d == Decide27(n, holders, down) IN
+  /\ LET d == Decide27(n, holders, down, refuse) IN
        /\ last' = d
        /\ holders' = After(holders, d)
   /\ UNCHANGED <<list, rep>>
 
 \* unordered checks (liveness) ...
-Run(n) == Check(n, {}) /\ UNCHANGED <<ran, round>>
+Run(n) == Check(n, {}, {}) /\ UNCHANGED <<ran, round>>
 \* ... and the round discipline of the bounded form: every current holder checks once per round
 RoundRun(n) == /\ n \notin ran
                /\ round <= MaxRounds               \* (bounds the counter; one more round is watched)
-               /\ Check(n, {})
+               /\ Check(n, {}, {})
                /\ LET ran1 == ran \cup {n} IN
                   IF holders' \subseteq ran1 THEN ran' = {} /\ round' = round + 1
                                             ELSE ran' = ran1 /\ UNCHANGED round
@@ -79,8 +81,8 @@ Rounds == CInit /\ [][\E n \in Cluster : RoundRun(n) /\ UNCHANGED vars]_<<cvars,
 
 -----------------------------------------------------------------------------
 Primaries == {list[k] : k \in 1..rep}
-Quiet(hs) == \A n \in hs : LET d == Decide27(n, hs, {}) IN d.tasks = <<>> /\ d.del = "none"
-NoTasks(hs) == \A n \in hs : Decide27(n, hs, {}).tasks = <<>>
+Quiet(hs) == \A n \in hs : LET d == Decide27(n, hs, {}, {}) IN d.tasks = <<>> /\ d.del = "none"
+NoTasks(hs) == \A n \in hs : Decide27(n, hs, {}, {}).tasks = <<>>
 Converged == Primaries \subseteq holders /\ NoTasks(holders)
 
 \* C27, temporal form
